@@ -73,8 +73,8 @@ fn base(name: &str, prop: &'static str, alphabet: Vec<Cmd>, depth: usize, tier: 
         sut: SutCfg { item_limit: 1024, policy: Policy::None },
         evict: Evict::Off,
         normalise: true,
-        state_cap: if tier == Tier::Quick { 400_000 } else { 6_000_000 },
-        wall_cap_s: if tier == Tier::Quick { 40.0 } else { 420.0 },
+        state_cap: if tier == Tier::Quick { 1_500_000 } else { 12_000_000 },
+        wall_cap_s: if tier == Tier::Quick { 40.0 } else { 600.0 },
         check_usage: false,
         start_time: 0,
         opaques: vec![],
@@ -169,7 +169,7 @@ fn c02(tier: Tier) -> Vec<SeqCfg> {
     a.push(set(K2, b"o", 0, 0));
     a.push(store(StoreKind::Set, K2, b"p", 0, 0, Current));
     a.push(get(K2));
-    let d = if tier == Tier::Quick { 4 } else { 6 };
+    let d = if tier == Tier::Quick { 6 } else { 8 };
     vec![base("C02/cas", "C02", a, d, tier)]
 }
 
@@ -201,12 +201,12 @@ fn c05(tier: Tier) -> Vec<SeqCfg> {
         Cmd::Tick(Tick::BeforeNextExpiry),
         tick(DAYS30 as u64),
     ];
-    let d = if tier == Tier::Quick { 4 } else { 6 };
+    let d = if tier == Tier::Quick { 5 } else { 7 };
     let mut c = base("C05/ttl", "C05", a.clone(), d, tier);
     c.start_time = 100;
     let mut v = vec![c];
     if tier == Tier::Thorough {
-        let mut z = base("C05/ttl-from-zero", "C05", a, 5, tier);
+        let mut z = base("C05/ttl-from-zero", "C05", a, 6, tier);
         z.start_time = 0;
         v.push(z);
     }
@@ -246,7 +246,7 @@ fn c06(tier: Tier) -> Vec<SeqCfg> {
         append(K2, b"!", Zero),
         get(K2),
     ];
-    let d = if tier == Tier::Quick { 4 } else { 6 };
+    let d = if tier == Tier::Quick { 5 } else { 7 };
     vec![base("C06/conditional", "C06", a, d, tier)]
 }
 
@@ -286,7 +286,7 @@ fn c07(tier: Tier) -> Vec<SeqCfg> {
     a.push(get(K1));
     a.push(delete(K1, Zero));
     a.push(tick(5));
-    let d = if tier == Tier::Quick { 3 } else { 5 };
+    let d = if tier == Tier::Quick { 5 } else { 8 };
     vec![base("C07/counters", "C07", a, d, tier)]
 }
 
@@ -308,7 +308,7 @@ fn c08(tier: Tier) -> Vec<SeqCfg> {
     a.push(flush(Some(3)));
     a.push(tick(1));
     a.push(tick(3));
-    let d = if tier == Tier::Quick { 4 } else { 6 };
+    let d = if tier == Tier::Quick { 6 } else { 8 };
     let mut c = base("C08/delete-flush", "C08", a, d, tier);
     c.start_time = 50;
     vec![c]
@@ -378,13 +378,13 @@ fn c15(tier: Tier) -> Vec<SeqCfg> {
     ];
     let mut v = vec![];
     // accounting observed after every command (hook)
-    let mut c = base("C15/accounting-L=4000", "C15", a.clone(), if tier == Tier::Quick { 3 } else { 5 }, tier);
+    let mut c = base("C15/accounting-L=4000", "C15", a.clone(), if tier == Tier::Quick { 4 } else { 6 }, tier);
     c.sut.policy = Policy::Random(4000);
     c.evict = Evict::Generous;
     c.check_usage = true;
     v.push(c);
     // behavioural form: limit just above the largest live set the alphabet can build at this depth
-    let d = if tier == Tier::Quick { 4 } else { 5 };
+    let d = if tier == Tier::Quick { 4 } else { 6 };
     let mut c = base("C15/behavioural-L=130", "C15", a, d, tier);
     c.sut.policy = Policy::Random(130);
     c.evict = Evict::Generous;
@@ -434,7 +434,7 @@ fn c11(tier: Tier) -> Vec<SeqCfg> {
     // quiet twins of everything that has one
     let twins: Vec<Cmd> = a.iter().filter_map(|c| c.toggled()).collect();
     a.extend(twins);
-    let d = if tier == Tier::Quick { 3 } else { 4 };
+    let d = if tier == Tier::Quick { 4 } else { 6 };
     let mut c = base("C11/all-opcodes-all-outcomes", "C11", a, d, tier);
     c.opaques = vec![0, 0xabad1dea, 0xffffffff, 0x80000001];
     vec![c]
@@ -466,7 +466,7 @@ fn c19(tier: Tier) -> Vec<SeqCfg> {
         tick(1),
         tick(2),
     ];
-    let d = if tier == Tier::Quick { 3 } else { 5 };
+    let d = if tier == Tier::Quick { 5 } else { 7 };
     vec![base("C19/loud-vs-toggled", "C19", a, d, tier)]
 }
 
